@@ -54,6 +54,7 @@ fn gens(tier: Tier) -> Vec<Gen> {
         Gen::new("random_scripts", tier.pick(4, 6_000, 400_000)),
         Gen::new("hostile_field_sections", tier.pick(4, 3_000, 150_000)),
         Gen::new("uni_stream_bursts", tier.pick(4, 2_000, 100_000)),
+        Gen::new("own_streams_and_setup_under_fire", tier.pick(4, 4_000, 200_000)),
         Gen::new("regressions", 1),
     ]
 }
@@ -512,12 +513,33 @@ fn actor_stream(actor: &str, probe: &Probe) -> Option<u64> {
     None
 }
 
+/// Conditions that hold before the endpoint is polled for the first time, and faults the peer or the
+/// path raises on the streams h3 itself opened (control, QPACK encoder/decoder, grease) - none of which
+/// a script slot can address.
+#[derive(Debug, Clone, Default, PartialEq, Eq, Hash)]
+pub struct Pre {
+    /// unidirectional stream credit h3 starts with (None = unlimited) and whether more is granted later
+    pub uni_credit: Option<(u64, bool)>,
+    /// the peer's close (code) was delivered before the first poll
+    pub closed_before_first_poll: Option<u64>,
+    /// the idle timeout fired: before the first poll (Some(0)) or once the network clock reaches t
+    pub timeout_at: Option<u64>,
+    /// STOP_SENDING(code) on the k-th unidirectional stream h3 opened, sent as soon as it exists
+    pub stop_own_uni: Vec<(u8, u64)>,
+    /// what h3 writes goes out against back-pressure
+    pub force_backpressure: bool,
+}
+
 pub fn run_script(ops: &[POp], h3_is_server: bool, split: bool, nreq_client: usize, seed: u64) -> Outcome {
+    run_script_pre(ops, h3_is_server, split, nreq_client, seed, &Pre::default())
+}
+
+pub fn run_script_pre(ops: &[POp], h3_is_server: bool, split: bool, nreq_client: usize, seed: u64, pre: &Pre) -> Outcome {
     let mut rng = Rng::new(seed);
     let mut cfg = NetCfg::random(&mut rng);
     // what h3 writes (SETTINGS, responses, requests, grease) goes out against back-pressure in a
     // third of the scripts: partial writes inside frame headers and payloads
-    cfg.backpressure = rng.chance(1, 3);
+    cfg.backpressure = rng.chance(1, 3) || pre.force_backpressure;
     cfg.ordered_accept = rng.bool();
     if ops.iter().any(|o| matches!(o, POp::Write { data, .. } if data.len() > 3000)) {
         // h3's BufList::remaining is linear in the number of chunks; tiny chunks of a big write make
@@ -530,9 +552,36 @@ pub fn run_script(ops: &[POp], h3_is_server: bool, split: bool, nreq_client: usi
     {
         let mut n = lock(&net);
         raw::mark_raw(&mut n, raw_side);
+        if let Some((k, more_later)) = pre.uni_credit {
+            n.sides[h3_side].uni_credit = k;
+            if !more_later {
+                n.sides[h3_side].credit_grants_left = 0;
+            }
+        }
+        if let Some(code) = pre.closed_before_first_poll {
+            n.close(raw_side, code, b"closed before the first poll");
+            let mut srng = Rng::new(seed ^ 0x51);
+            if n.enabled_actions().iter().any(|a| matches!(a, sim::NetAction::DeliverClose)) {
+                n.apply(sim::NetAction::DeliverClose, &mut srng);
+            }
+        }
+        if pre.timeout_at == Some(0) {
+            n.timeout(h3_side);
+        }
     }
     let probe = Probe::new(&net);
     let mut sched = Sched::new(net.clone(), rng.next());
+    for (k, code) in pre.stop_own_uni.iter().copied() {
+        let id = sim::make_id(h3_side, false, k as u64);
+        sched.add_script(vec![raw::step_custom(
+            "stop_sending on a stream h3 opened",
+            move |n| n.streams.get(&id).map(|s| s.pipes[h3_side].is_some()).unwrap_or(false),
+            move |n, _| n.raw_stop(raw_side, id, code),
+        )]);
+    }
+    if let Some(t) = pre.timeout_at.filter(|t| *t > 0) {
+        sched.add_script(vec![raw::step_custom("idle timeout fires", move |n| n.time >= t && n.closed.is_none(), move |n, _| n.timeout(h3_side))]);
+    }
     // translate the script: slots are resolved when the step runs
     let slots: std::rc::Rc<std::cell::RefCell<Vec<u64>>> = Default::default();
     let mut steps: Vec<ScriptStep> = Vec::new();
@@ -800,16 +849,23 @@ fn op_short(op: &POp) -> String {
 }
 
 pub fn check_script(ops: &[POp], h3_is_server: bool, split: bool, nreq_client: usize, seed: u64, rep: &mut Report) {
+    check_script_pre(ops, h3_is_server, split, nreq_client, seed, &Pre::default(), rep)
+}
+
+pub fn check_script_pre(ops: &[POp], h3_is_server: bool, split: bool, nreq_client: usize, seed: u64, pre: &Pre, rep: &mut Report) {
     rep.evaluations += 1;
     rep.count("scripts");
     rep.count(if h3_is_server { "role[server]" } else { "role[client]" });
-    let case = json!({"h3_role": if h3_is_server { "server" } else { "client" }, "split": split, "client_requests": nreq_client,
+    let mut case = json!({"h3_role": if h3_is_server { "server" } else { "client" }, "split": split, "client_requests": nreq_client,
                       "script": ops.iter().map(op_short).collect::<Vec<_>>(), "script_bytes": hex_short(&encode(ops), 200)});
-    let o = run_script(ops, h3_is_server, split, nreq_client, seed);
+    if *pre != Pre::default() {
+        case["before_and_beside_the_script"] = json!(format!("{:?}", pre));
+    }
+    let o = run_script_pre(ops, h3_is_server, split, nreq_client, seed, pre);
     rep.add("polls_under_panic_catcher", o.polls);
     rep.add("quiescence_points_checked", o.quiescence_points);
     rep.add("stream_end_delivered_while_call_open_checked", o.stream_end_checks);
-    rep.sig(hash64(&(ops, h3_is_server, split, o.sig)));
+    rep.sig(hash64(&(ops, h3_is_server, split, o.sig, pre)));
     rep.sig_in("interleaving_signatures", o.sig);
     if let Some(c) = o.h3_error_close {
         rep.count("h3_detected_connection_error");
@@ -1096,6 +1152,53 @@ fn run_case(gen: &str, index: u64, seed: u64, _tier: Tier, rep: &mut Report) {
             }
             rep.count(if prestage { "burst[queued before the first poll]" } else { "burst[trickling in]" });
             check_script(&ops, h3_is_server, rng.bool(), nreq, rng.next(), rep);
+        }
+        "own_streams_and_setup_under_fire" => {
+            // the peer (or the path) acts on what h3 itself opened, or before h3 has done anything:
+            // STOP_SENDING on h3's control / QPACK / grease streams (what a compliant peer does to
+            // a stream type it does not know), the connection already closed or timed out when
+            // build() is first polled, no or little unidirectional stream credit during set-up, the
+            // idle timeout at a PRNG-chosen moment. build(), the driver and every request call must
+            // return; nothing may panic.
+            let h3_is_server = rng.bool();
+            let nreq = 1 + rng.usize(2);
+            let mut ops = skeleton(h3_is_server, nreq, rng.below(32), &mut rng);
+            let mut pre = Pre::default();
+            let mut any = false;
+            if rng.chance(1, 2) {
+                let n = 1 + rng.usize(2);
+                for _ in 0..n {
+                    pre.stop_own_uni.push((*rng.pick(&[0u8, 0, 1, 2, 3, 3]), *rng.pick(&[0u64, 0x103, 0x10c, (1 << 62) - 1])));
+                }
+                pre.force_backpressure = rng.bool();
+                rep.count("own_stream[stop_sending on a stream h3 opened]");
+                any = true;
+            }
+            if rng.chance(1, 3) {
+                pre.uni_credit = Some((rng.below(5), rng.bool()));
+                rep.count("setup[unidirectional credit 0..4]");
+                any = true;
+            }
+            match rng.below(if any { 6 } else { 3 }) {
+                0 => {
+                    pre.closed_before_first_poll = Some(*rng.pick(&CODES));
+                    rep.count("setup[peer's close delivered before the first poll]");
+                }
+                1 => {
+                    pre.timeout_at = Some(0);
+                    rep.count("setup[timed out before the first poll]");
+                }
+                2 => {
+                    pre.timeout_at = Some(1 + rng.below(60));
+                    rep.count("setup[idle timeout at a chosen moment]");
+                }
+                _ => {}
+            }
+            if rng.chance(1, 4) {
+                let at = rng.usize(ops.len() + 1);
+                ops.insert(at, POp::Close { code: *rng.pick(&CODES) });
+            }
+            check_script_pre(&ops, h3_is_server, rng.bool(), nreq, rng.next(), &pre, rep);
         }
         "hostile_field_sections" => {
             // one HEADERS frame of a valid scenario (head or trailers) replaced by a validly encoded
